@@ -439,7 +439,32 @@ func extractC09(c *Ctx) error {
 		Class   string `json:"class"`
 		Why     string `json:"why"`
 		Backing string `json:"backing"` // the proved lemma / harness oracle the class rests on (second round)
+		// class "recovered": the function ("relfile:Recv.Func", Recv may be empty) whose deferred recover
+		// contains the panic; the translator checks that this recover is EFFECTIVE (round 4)
+		RecoverIn string `json:"recover_in"`
 	}
+	recoverOK := map[string]bool{}
+	effective := func(where string) bool {
+		if v, ok := recoverOK[where]; ok {
+			return v
+		}
+		res := false
+		if i := strings.LastIndex(where, ":"); i > 0 {
+			file, fn := where[:i], where[i+1:]
+			recv, name := "", fn
+			if j := strings.Index(fn, "."); j >= 0 {
+				recv, name = fn[:j], fn[j+1:]
+			}
+			if f, err := c.Parse(file); err == nil {
+				if fd := FindFunc(f, recv, name); fd != nil && fd.Body != nil {
+					res = c09EffectiveRecover(f, fd)
+				}
+			}
+		}
+		recoverOK[where] = res
+		return res
+	}
+	recoveredAllEffective := true
 	table := map[string]entry{}
 	tpath := os.Getenv("VERIF_C09_TABLE")
 	if tpath == "" {
@@ -471,6 +496,11 @@ func extractC09(c *Ctx) error {
 			if cl == "not-sender-controlled" && strings.TrimSpace(e.Backing) == "" {
 				cl = "unclassified"
 			}
+			if cl == "recovered" && !effective(e.RecoverIn) {
+				// no function named, or its recover() is not called directly by a deferred function
+				cl = "unclassified"
+				recoveredAllEffective = false
+			}
 			if e.Backing != "" {
 				backed++
 			}
@@ -501,6 +531,7 @@ func extractC09(c *Ctx) error {
 	c.Info("classes", classCount)
 	c.Info("stale_table_entries", stale)
 	c.Info("sites_with_named_backing", backed)
+	c.P("Definition recovered_sites_have_effective_recover : bool := %v.", recoveredAllEffective)
 	if len(unclassified) > 0 {
 		if len(unclassified) > 8 {
 			c.Info("unclassified_first", unclassified[:8])
